@@ -95,11 +95,12 @@ Fixpoint rc (i : inl) (d : nat) (t : N) (r : bytes) {struct d} : pres :=
   end.
 
 (* the causes a failed skip of (t, b) may name, budget 64; [] when (t, b) is accepted *)
-Definition skip_causes (i : inl) (t : N) (b : bytes) : list cause :=
-  match rc i ref_depth t b with
+Definition causes_at (i : inl) (d : nat) (t : N) (b : bytes) : list cause :=
+  match rc i d t b with
   | Err m => causes_of_mask m
   | _ => []
   end.
+Definition skip_causes (i : inl) (t : N) (b : bytes) : list cause := causes_at i ref_depth t b.
 Definition cause_allowed (i : inl) (t : N) (b : bytes) (c : cause) : bool :=
   existsb (cause_eqb c) (skip_causes i t b).
 
